@@ -546,6 +546,9 @@ class C05(Prop):
                     suffix = {"production": "", "nightly": ".n", "test": ".t", "ci": ".ci", "development": ".d"}.get(c["type"], "")
                     if not _re.search(r"\d{8}(\.[a-z]+)?\.\d+$", str(c["id"])) or not str(c["id"]).endswith("%s%s.%s" % (c["date"], suffix, c["respin"])):
                         c["id"] = "%s-%s-%s%s.%s" % (spec["release"]["short"], spec["release"]["version"], c["date"], suffix, c["respin"])
+                        # (c01, audit pools) a release short/version may now hold a line feed; `.` in the id decoder of the
+                        # legacy reader does not cross it, so such an id is not decodable: a legacy compose id is one line
+                        c["id"] = c["id"].replace("\n", " ")
                 if L.vt(ver) < (0, 3) and cnt["ci"] % 2:
                     # respin boundaries of the id decoder: one digit, two digits, 10^7 - 1 (last good), 10^7 (F10)
                     r = RESPINS[(cnt["ci"] // 2) % len(RESPINS)]
